@@ -477,6 +477,78 @@ struct checks {
     }
     void info_fileptr(long&, long&, std::false_type) {}
 
+    // (9) delivery independence: every entry point through input streams that serve the bytes in pieces
+    // (get area refilled k bytes at a time; std::ifstream on a scratch file; std::stringstream filled by
+    // write) must give what the same entry point gives through a one-piece std::istringstream.
+    struct any_digest {
+        typedef void result_type;
+        std::string* out;
+        template <class Image> void operator()(Image const& im) { *out = vh::cat(im.width(), "x", im.height(), ":", cio::hash_view(gil::const_view(im))); }
+    };
+    template <class I> static std::string digest(I const& im) { return vh::cat(im.width(), "x", im.height(), ":", cio::hash_view(gil::const_view(im))); }
+    enum { E_READ_IMAGE, E_SUBRECT, E_READ_VIEW, E_CONVERT_RGB8, E_CONVERT_GRAY32F, E_CONVERT_VIEW, E_INFO, E_ANY, E_SCANLINE, E_SCANLINE_SKIP, E_COUNT };
+    static const char* entry_name(int e) {
+        static const char* n[] = { "read_image", "read_image-subrect", "read_view", "read_and_convert_image-rgb8", "read_and_convert_image-gray32f",
+                                   "read_and_convert_view-rgb8", "read_image_info", "any_image", "scanline", "scanline-skip" };
+        return n[e];
+    }
+    std::string scan_digest(std::istream& in, bool skip_odd) {
+        typename gil::get_read_device<std::istream, Tag>::type dev(in);
+        typename gil::get_scanline_reader<std::istream, Tag>::type reader(dev, settings_t());
+        auto it = reader.begin(); auto end = reader.end();
+        uint64_t h = 1469598103934665603ull; long rows = 0, y = 0;
+        for (; it != end; ++it, ++y) {
+            if (skip_odd && (y & 1)) continue;
+            gil::byte_t* rowp = *it;
+            h = vh::hash_bytes(rowp, (size_t)reader._scanline_length, h);
+            ++rows;
+            if (y > 100000) break;
+        }
+        return vh::cat(rows, " rows of ", (size_t)reader._scanline_length, " bytes:", h);
+    }
+    std::string entry(int e, std::istream& in, long W, long H) {
+        try {
+            switch (e) {
+            case E_READ_IMAGE: { Img B; gil::read_image(in, B, Tag()); return digest(B); }
+            case E_SUBRECT: { long x0 = W > 1 ? std::max(1L, W / 3) : 0, y0 = H > 1 ? std::max(1L, H / 3) : 0; Img B;
+                              gil::read_image(in, B, settings_t(gil::point_t(x0, y0), gil::point_t(W - x0, H - y0))); return digest(B); }
+            case E_READ_VIEW: { Img B(W, H); gil::read_view(in, gil::view(B), Tag()); return digest(B); }
+            case E_CONVERT_RGB8: { gil::rgb8_image_t C; gil::read_and_convert_image(in, C, Tag()); return digest(C); }
+            case E_CONVERT_GRAY32F: { gil::gray32f_image_t C; gil::read_and_convert_image(in, C, Tag()); return digest(C); }
+            case E_CONVERT_VIEW: { gil::rgb8_image_t C(W, H); gil::read_and_convert_view(in, gil::view(C), Tag()); return digest(C); }
+            case E_INFO: { auto b = gil::read_image_info(in, Tag()); long w, h; dims_of(b, w, h); return vh::cat(w, "x", h); }
+            case E_ANY: { AnyImg any; gil::read_image(in, any, Tag()); std::string d; any_digest ad{ &d }; boost::variant2::visit(ad, any); return vh::cat("alt", (long)any.index(), " ", d); }
+            case E_SCANLINE: return scan_digest(in, false);
+            case E_SCANLINE_SKIP: return scan_digest(in, true);
+            }
+        } catch (std::exception const& ex) { return std::string("exception: ") + ex.what(); }
+        return "";
+    }
+    void streams(int kind) {
+        Img A; if (!full(A)) return;
+        vh::rng r = vh::case_rng();
+        size_t seeded_k = 3 + (size_t)r.below(8190);
+        long W = A.width(), H = A.height();
+        long n = 0;
+        for (int e = 0; e < E_COUNT; ++e) {
+            std::string ref, got;
+            { cio::stream_src s; ref = entry(e, s.open(cio::SK_PLAIN, f.bytes, 0), W, H); }
+            { cio::stream_src s; got = entry(e, s.open(kind, f.bytes, seeded_k), W, H); }
+            vh::evals(1); ++n;
+            if (ref.compare(0, 10, "exception:") != 0) vh::obs(vh::cat("stream.entry-ok.", entry_name(e)));      // the comparison is not one of two error texts
+            else vh::count(vh::cat("stream_ref_exception_", entry_name(e)));
+            if (ref != got)
+                vh::viol(key("stream-delivery", vh::cat(cio::stream_kind_name(kind), ".", entry_name(e))),
+                         vh::cat(f.name, " (", f.bytes.size(), " bytes) ", entry_name(e), " through ", cio::stream_kind_name(kind),
+                                 kind == cio::SK_FRAGSEEDED ? vh::cat(" k=", seeded_k) : std::string(), ": [", got.substr(0, 160), "] but through a one-piece istringstream: [", ref.substr(0, 160), "]"));
+        }
+        vh::distinct(n);
+        vh::obs(vh::cat("stream.", cio::stream_kind_name(kind)));
+        if (f.bytes.size() > 8192) vh::obs("stream.file-over-8KB");
+        if (f.bytes.size() > 16384) vh::obs("stream.file-over-16KB");
+        if (f.bytes.size() > 65536) vh::obs("stream.file-over-64KB");
+    }
+
     void run(int path, int sub = 0) {
         switch (path) {
         case 0: subrect(sub / 4, sub % 4); break;
@@ -487,11 +559,12 @@ struct checks {
         case 5: devices(); break;
         case 6: info(); break;
         case 7: toosmall(); break;
+        case 8: streams(sub); break;
         }
     }
 };
-static const char* PATHS[] = { "subrect", "convert", "scanline", "readview", "anyimage", "devices", "info", "toosmall" };
-enum { NPATHS = 8 };
+static const char* PATHS[] = { "subrect", "convert", "scanline", "readview", "anyimage", "devices", "info", "toosmall", "streams" };
+enum { NPATHS = 9 };
 
 // ---- file sets --------------------------------------------------------------------------------------
 static bool load_fixture(const char* fmt, const char* rel, file_t& f) {
@@ -515,7 +588,7 @@ static std::vector<sz_t> sizes(bool small) {
     std::vector<sz_t> v;
     if (small) { v = { { { 8, 8 } }, { { 5, 3 } }, { { 1, 1 } }, { { 3, 7 } }, { { 1, 6 } }, { { 7, 1 } } };
                  if (vh::thorough()) { sz_t more[] = { { { 2, 2 } }, { { 4, 8 } }, { { 8, 3 } }, { { 6, 6 } }, { { 2, 7 } }, { { 8, 1 } }, { { 1, 8 } }, { { 7, 5 } } }; v.insert(v.end(), more, more + 8); } }
-    else { v = { { { 33, 17 } }, { { 18, 9 } } };
+    else { v = { { { 33, 17 } }, { { 18, 9 } }, { { 200, 150 } } };      // the last one: files of 30-180 KB, well over any stream buffer
            if (vh::thorough()) { sz_t more[] = { { { 40, 23 } }, { { 64, 5 } }, { { 17, 64 } }, { { 9, 9 } }, { { 31, 32 } }, { { 16, 16 } } }; v.insert(v.end(), more, more + 6); } }
     return v;
 }
@@ -629,6 +702,7 @@ static void build_files() {
     // binary mono: the writer only handles widths that are multiples of 8 (C12 finding); 8x8 and 16x5, 24x3
     { gil::gray1_image_t im(8, 8); cio::fill_view(gil::view(im), fs(901), 0); add("P4-bin-mono", "written:gray1 8x8", written(gil::view(im), info), K_GRAY1); }
     { gil::gray1_image_t im(16, 5); cio::fill_view(gil::view(im), fs(902), 0); add("P4-bin-mono", "written:gray1 16x5", written(gil::view(im), info), K_GRAY1); }
+    { gil::gray1_image_t im(1000, 264); cio::fill_view(gil::view(im), fs(905), 0); add("P4-bin-mono", "written:gray1 1000x264", written(gil::view(im), info), K_GRAY1); }   // 33 KB
     // crafted P4 with a width that is not a multiple of 8 (rows padded to whole bytes)
     { std::string b = "P4\n11 6\n"; vh::rng r(fs(903)); for (int i = 0; i < 12; ++i) b.push_back((char)r.below(256)); add("P4-bin-mono-padded", "crafted:P4 11x6", b, K_GRAY1); }
     { std::string b = "P4 5 7 "; vh::rng r(fs(904)); for (int i = 0; i < 7; ++i) b.push_back((char)r.below(256)); add("P4-bin-mono-padded", "crafted:P4 5x7", b, K_GRAY1); }
@@ -815,6 +889,8 @@ static void build_files() {
     }
     add("interlaced-gray4", "crafted:adam7 gray4 13x9", png_craft(13, 9, PNG_COLOR_TYPE_GRAY, 4, true, 1301), K_GRAY4_NOSCAN);
     add("gray1", "crafted:gray1 19x6", png_craft(19, 6, PNG_COLOR_TYPE_GRAY, 1, false, 1303), K_GRAY1);
+    { gil::gray1_image_t im(1000, 400); cio::fill_view(gil::view(im), fs(1304), 0); add("gray1", "written:gray1 1000x400", written(gil::view(im), info), K_GRAY1); }   // ~50 KB
+    { gil::gray4_image_t im(640, 240); cio::fill_view(gil::view(im), fs(1305), 0); add("gray4", "written:gray4 640x240", written(gil::view(im), info), K_GRAY4); }    // ~77 KB
 }
 static void run_file(entry_t const& e, int path, int sub) {
     switch (e.kind) {
@@ -885,6 +961,10 @@ template <class Img> static void add_tiff_type(const char* type, int kind_scan, 
             add(vh::cat(type, "-", c.name), vh::cat("written:", type, " ", c.name, " ", s[0], "x", s[1]), written(gil::view(im), info), c.scan ? kind_scan : kind_noscan);
             ++n;
         }
+        if (gil::is_bit_aligned<typename std::remove_reference<typename Img::view_t::reference>::type>::value && !c.tiled && c.compression != COMPRESSION_PACKBITS) {
+            Img im(1000, 260); cio::fill_view(gil::view(im), fs(seed0 + 500 + n), 0);      // 32 KB (1 bit) / 130 KB (4 bit)
+            add(vh::cat(type, "-", c.name), vh::cat("written:", type, " ", c.name, " 1000x260"), written(gil::view(im), info), c.scan ? kind_scan : kind_noscan);
+        }
     }
 }
 #endif
@@ -926,12 +1006,13 @@ int main(int argc, char** argv) {
         for (int p = 0; p < NPATHS; ++p) {
             entry_t const& e = files()[i];
             std::string id = e.f.name.substr(e.f.name.find(':') + 1);
-            for (int sub = 0; sub < (p == 0 ? 16 : p == 3 ? 4 : p == 2 ? 5 : 1); ++sub) {
+            for (int sub = 0; sub < (p == 0 ? 16 : p == 3 ? 4 : p == 2 ? 5 : p == 8 ? (int)cio::SK_COUNT : 1); ++sub) {
                 // the case class carries format, path, file variant and (sub-rectangles) the rectangle class, so
                 // that a fatal report is attributed as precisely as an oracle mismatch
                 std::string cls = vh::cat("c13.", FMT, ".", PATHS[p], ".", e.f.variant);
                 if (p == 0) cls += vh::cat(".", XCLS[sub / 4], "-", YCLS[sub % 4]);
                 if (p == 2 && sub > 0) cls += vh::cat(".", sub == 1 ? "skip-then-deref" : sub == 2 ? "deref-skip-deref" : sub == 3 ? "advance" : "alternate");
+                if (p == 8) cls += vh::cat(".", cio::stream_kind_name(sub));
                 if (p == 3) cls += vh::cat(".", sub == 0 ? "whole" : sub == 1 ? "xoff-toright-yoff-tobottom" : sub == 2 ? "x0-shortw-y0-shorth" : "xoff-shortw-yoff-shorth");
                 if (!vh::begin_case(cls, id)) continue;
                 run_file(e, p, sub);
